@@ -113,10 +113,19 @@ def do_replay(path):
 _JOBS = []
 
 
+class _Canary:
+    kind = 'canary'
+
+    def __init__(self, pc, inputs, outcome):
+        self.pc, self.inputs, self.outcome = pc, inputs, outcome
+
+
 def _solve_job(i):
     key, what, to, all_solvers = _JOBS[i]
-    if isinstance(what, list):                      # a complete path condition: the reachability canary
-        text, wv = smt.to_smt2(what, None), None
+    if isinstance(what, _Canary):                   # a complete path condition: the reachability canary (+ its model)
+        leaves = api.want_values(what)
+        text = smt.to_smt2(what.pc, None, mention=leaves or ())
+        wv = [t.sexpr() for t in leaves] if leaves else None
     elif what.kind == 'cover':
         text, wv = smt.to_smt2(what.pc, None), None
     else:
@@ -251,10 +260,15 @@ def run_property(prop, tier, seed):
         for k, ob in enumerate(r.obligations):
             jobs.append(((p.full, k), ob, p.timeout or timeout))
         # vacuity canary: some complete path must be satisfiable together with the library axioms
+        # ... and the solver's model of that path is replayed on the real code (a concolic run-time contract case per
+        # sampled path: catches an engine that follows a path the real code does not take, and covers paths the hand-written
+        # samples miss)
         if r.path_pcs:
-            idxs = sorted({0, len(r.path_pcs) // 2, len(r.path_pcs) - 1})
+            want = 6 if tier == 'quick' else 40
+            n_p = len(r.path_pcs)
+            idxs = sorted({(j * (n_p - 1)) // max(1, want - 1) for j in range(min(want, n_p))})
             for i in idxs:
-                jobs.append(((p.full, 'canary', i), r.path_pcs[i], 5))
+                jobs.append(((p.full, 'canary', i), _Canary(*r.path_pcs[i]), 5))
     # the bounded run-time contract cases run in a forked child while the obligations are being discharged
     bounded_child = _start_bounded(runs, tier, known, prop)
     results = _discharge(jobs, all_solvers=(tier == 'thorough'))
@@ -275,6 +289,7 @@ def run_property(prop, tier, seed):
     builtins_used = set()
     extra_assumptions = set()
     bounded = []
+    path_replays = dict(run=0, failed=0)
 
     def bump(code):
         nonlocal exit_code
@@ -290,6 +305,26 @@ def run_property(prop, tier, seed):
             errors.append(f"vacuity: every sampled complete path of {p.full} is unsatisfiable together with the axioms "
                           f"(inconsistent axioms or contradictory precondition)")
             bump(3)
+        for k in [k for k in results if k[0] == p.full and len(k) == 3 and k[1] == 'canary']:
+            res = results[k]
+            if res.status != 'sat' or not res.model_text:
+                continue
+            cinputs = api.decode_inputs(_Canary(*r.path_pcs[k[2]]), res)
+            if cinputs is None:
+                continue
+            status, detail = api.run_native(p, cinputs)
+            if status == 'skip':
+                continue
+            path_replays['run'] += 1
+            if status == 'violation':
+                kf = known_match(known, prop, p.name, cinputs)
+                if kf is not None:
+                    known_hits.append((kf, f"{p.full}::path-replay"))
+                    continue
+                path_replays['failed'] += 1
+                rp = write_replay(prop, p, f"{p.full}::path-replay", cinputs, detail, res.model_text)
+                violations.append(dict(obligation=f"{p.full}::path-replay", replay=rp, inputs=api.jsonable(cinputs), detail=detail))
+                bump(1)
         for k, v in r.used.items():
             if v.get('in_repo'):
                 functions[f"{v['path']}::{v['qualname']}"] = dict(lines=v['lines'], sha256=v['sha256'])
@@ -445,6 +480,7 @@ def run_property(prop, tier, seed):
             obligation_status={n: s for n, s in sorted(ob_status.items())},
             by_backend=by_backend, solver_time_s=round(solver_time, 2),
             undecided=undecided, bounded_standins=bounded,
+            path_models_replayed_natively=dict(path_replays, note="solver models of sampled complete paths decoded to inputs and run through the real code with the contract checked by CPython (bounded; never counted as discharged)"),
             builtins_modelled=sorted(builtins_used),
             not_decided_clauses=list(getattr(mod, 'NOT_DECIDED', [])),
             known_findings=[dict(id=k['id'], what=k['what'], predicate=k.get('predicate')) for k in known
